@@ -213,6 +213,12 @@ func (c *curve) encodePoint(x, y *mod.Int) []byte {
 // without exposing more than the least-significant bits of the scalar.
 func (c *curve) decodePoint(bb []byte, x, y *mod.Int) error {
 
+	// The encoding has a fixed length; anything else is not a point
+	// (and an empty slice must not be indexed below).
+	if len(bb) != c.PointLen() {
+		return errors.New("invalid elliptic curve point: wrong length")
+	}
+
 	// Convert from little-endian
 	b := make([]byte, len(bb))
 	reverse(b, bb)
